@@ -8,6 +8,7 @@ import (
 	"github.com/jig/lisp"
 	"github.com/jig/lisp/env"
 	"github.com/jig/lisp/lib/call"
+	"github.com/jig/lisp/lisperror"
 	"github.com/jig/lisp/lib/core"
 	. "github.com/jig/lisp/types"
 	"verif.example/h/lib"
@@ -26,6 +27,17 @@ func fail_BANG() (MalType, error)           { return nil, Sentinel }
 func panicerr_BANG() (MalType, error)       { panic(Sentinel) }
 func panicval_BANG() (MalType, error)       { panic(42) }
 
+// a Go error that carries a lisp error further down its Unwrap chain (a builtin reporting that a
+// stage failed because of a lisp-level throw): the thrown object is the Go error, not what it wraps
+type stageError struct{ inner error }
+
+func (e *stageError) Error() string { return "stage failed: " + e.inner.Error() }
+func (e *stageError) Unwrap() error { return e.inner }
+
+var WrapSentinel = &stageError{inner: lisperror.NewLispError(7, nil)}
+
+func wrapfail_BANG() (MalType, error) { return nil, WrapSentinel }
+
 const prelude = `(do
   (def thrower (fn [v] (throw v)))
   (def thrower2 (fn [v] (do (thrower v) (trace! :not-reached))))
@@ -38,6 +50,7 @@ func Setup() {
 	call.CallOverrideFN(Base, "fail!", fail_BANG)
 	call.CallOverrideFN(Base, "panic-err!", panicerr_BANG)
 	call.CallOverrideFN(Base, "panic-val!", panicval_BANG)
+	call.CallOverrideFN(Base, "wrapfail!", wrapfail_BANG)
 	if _, err := lisp.REPL(context.Background(), Base, prelude, nil); err != nil {
 		panic(err)
 	}
@@ -61,6 +74,9 @@ func refGlobals(m *ref.Machine) *ref.Scope {
 	})
 	bi("panic-val!", func(m *ref.Machine, a []MalType) (MalType, *ref.Thrown) {
 		return nil, &ref.Thrown{Kind: "throw", Val: 42}
+	})
+	bi("wrapfail!", func(m *ref.Machine, a []MalType) (MalType, *ref.Thrown) {
+		return nil, &ref.Thrown{Kind: "goerr", GoErr: WrapSentinel}
 	})
 	ast, err := lisp.READ(prelude, nil, nil)
 	if err != nil {
@@ -104,14 +120,14 @@ func valueExpr(tag string) MalType {
 
 // fragment is one form of a body, handler or finally.
 func fragment(tag string, depth int, catchSym string) MalType {
-	n := 9
+	n := 10
 	if depth > 0 {
-		n = 10
+		n = 11
 	}
 	k := vrt.Concrete(vrt.Choice(tag+"/f", n))
 	if vrt.Param("small", 0) == 1 {
 		// reduced alphabet: value, throw, trace, failing Go builtin, catch-variable observation, nested try
-		vrt.Assume(k == 0 || k == 1 || k == 2 || k == 4 || k == 8 || k == 9)
+		vrt.Assume(k == 0 || k == 1 || k == 2 || k == 4 || k == 8 || k == 10)
 	}
 	switch k {
 	case 0:
@@ -133,6 +149,8 @@ func fragment(tag string, depth int, catchSym string) MalType {
 	case 8:
 		// observe the catch variable (or its absence)
 		return lst(sym("trace!"), sym(catchSym))
+	case 9:
+		return lst(sym("wrapfail!"))
 	default:
 		return tryForm(tag+"/n", depth-1)
 	}
@@ -235,6 +253,7 @@ func RegisterBuiltins(e EnvType) {
 	call.CallOverrideFN(e, "fail!", fail_BANG)
 	call.CallOverrideFN(e, "panic-err!", panicerr_BANG)
 	call.CallOverrideFN(e, "panic-val!", panicval_BANG)
+	call.CallOverrideFN(e, "wrapfail!", wrapfail_BANG)
 }
 
 // Harness_try_tail: an outer try with catch and finally whose handler ends (in tail
